@@ -6,9 +6,9 @@ import Hannibal.Monitor.C05
   `monC16`  (safety, proved for the system model in Props/C16.lean): a broadcast `b` is taken up only by an
             actor that was registered under the broadcast's type with the broadcasting parent when it was sent,
             and at most once per registration.
-  `monC16q` (trace-only): by the end of the trace every such child that was not stopped, has not failed and
-            whose parent chain did not cut it off before has taken the broadcast up exactly once per
-            registration.
+  `monC16q` (proved for the system model in Props/C16Q.lean): at every quiescent point of a child that was not
+            stopped, restarted, has not failed and whose stream (if it is stream-attached) has not ended, the
+            child has taken every broadcast up exactly once per registration.
   Lifetime ("kept alive exactly until the parent terminates, then released, then drains and stops
   gracefully") is C05 applied to the child's projection, in which the parent's handle is an ordinary
   strong handle that is dropped by the parent's terminating event (`projOf` below): `monC05` / `monC05q`
@@ -84,9 +84,12 @@ structure C16qSt where
   base : C16St
   stopped : List Nat      -- actors somebody asked to stop or restart, or that failed: their mailbox may be dropped
 
-/-- events after which an actor may legitimately drop queued broadcasts -/
+/-- events after which an actor may legitimately drop queued broadcasts.
+    `streamEnd`: a stream-attached actor terminates with its stream (C13) whatever is still queued; without this
+    exemption the clause is false of the model (witness `c16qStreamWitness`, Props/C16Q.lean). -/
 def cuts (l : Label) : Bool :=
-  issuesStop l || l.isFailure || (match l with | .cbAbandon _ | .restartReq _ _ | .ctxRestart _ => true | _ => false)
+  issuesStop l || l.isFailure ||
+    (match l with | .cbAbandon _ | .restartReq _ _ | .ctxRestart _ | .streamEnd => true | _ => false)
 
 def monC16q : SMon C16qSt where
   init := { base := { kids := [], owed := fun _ _ => 0, issued := [] }, stopped := [] }
